@@ -64,7 +64,7 @@ func randomRun(c *Ctx, n int) (*Run, map[string]string) {
 	rs.IRT, as0.Confs[0].IRT = sp(id), sp(id)
 
 	nassert := pick(c, 1, 1, 1, 2)
-	nconf := pick(c, 1, 1, 2, 3)
+	nconf := pick(c, 1, 1, 2, 3, 0)
 	specs := make([]AssertSpec, nassert)
 	for j := range specs {
 		s := as0
@@ -84,11 +84,17 @@ func randomRun(c *Ctx, n int) (*Run, map[string]string) {
 	npert := pick(c, 0, 1, 1, 1, 2, 2, 3)
 	for p := 0; p < npert; p++ {
 		j := c.Rng.Intn(nassert)
-		i := c.Rng.Intn(nconf)
+		i := 0
+		if nconf > 0 {
+			i = c.Rng.Intn(nconf)
+		}
 		k := pick(c, 0, 0, 1, 1, 3, 4)
 		v := c.Rng.Intn(len(variantNames))
 		irt := pick(c, sp(id2), sp("id-0000000000"), sp(id[:len(id)-1]), sp(""), nil)
 		f := c.Rng.Intn(15)
+		if nconf == 0 && (f == 4 || f == 7 || f == 11 || f == 12 || f == 14) {
+			f = pick(c, 2, 3) // no confirmation to perturb: move a Conditions instant instead
+		}
 		key[fmt.Sprintf("perturb%d", p)] = fmt.Sprint(f)
 		switch f {
 		case 0:
